@@ -116,6 +116,16 @@ fn yuv_source_checks<T: Pixel>(ctx: &Ctx, idx: u64, w: usize, h: usize, ss: (u8,
     let mut junk = rng.clone();
     let y0 = build_yuv(&img, PADS[0], &mut junk, cfg);
     let keep = y0.clone();
+    // first a conversion with the same matrix value but other primaries / transfer on this thread, in both directions:
+    // whatever it leaves behind must not leak into the conversions checked below (they are compared with a fresh thread)
+    {
+        let prime = pick_cfg(idx + 7, depth, (0, 0));
+        let prime = YuvConfig { matrix_coefficients: cfg.matrix_coefficients, ..prime };
+        let small: Img<T> = Img { w: 2, h: 1, ss: (0, 0), planes: [vec![40, 180], vec![100, 30], vec![150, 220]], _t: std::marker::PhantomData };
+        if let Ok(r) = Rgb::try_from(&build_yuv(&small, PADS[0], &mut junk, prime)) {
+            let _ = Yuv::<T>::try_from((&r, prime));
+        }
+    }
     let rgb = match Rgb::try_from(&y0) {
         Ok(r) => r,
         Err(e) => {
@@ -153,7 +163,7 @@ fn yuv_source_checks<T: Pixel>(ctx: &Ctx, idx: u64, w: usize, h: usize, ss: (u8,
         }
     }
     // the same computation on a fresh thread (no thread-local state) must agree
-    if idx % 4 == 0 {
+    if idx % 4 == 0 || DERIVED.contains(&cfg.matrix_coefficients) {
         let fresh = std::thread::scope(|s| s.spawn(|| Rgb::try_from(&y0).map(|r| r.into_data())).join());
         cnt.fresh_thread_checks.fetch_add(1, Relaxed);
         if let Ok(Ok(fr)) = fresh {
@@ -226,6 +236,32 @@ fn yuv_source_checks<T: Pixel>(ctx: &Ctx, idx: u64, w: usize, h: usize, ss: (u8,
         let full: Result<Yuv<T>, _> = Yuv::try_from((&r, cfg1));
         if bits_eq(r.data(), keep.data()).is_some() || r.width() != keep.width() || r.transfer() != keep.transfer() || r.primaries() != keep.primaries() {
             viol("source-mutated|&Rgb", "the borrowed Rgb changed during Yuv::try_from((&rgb,cfg))".into(), case());
+        }
+        // the encoder must not depend on what was converted before it either
+        if let Ok(first) = &sub {
+            let other = pick_cfg(idx + 1, depth, (0, 0));
+            let other = YuvConfig { matrix_coefficients: cfg.matrix_coefficients, ..other };
+            let r_other = Rgb::new(vec![[0.3, 0.6, 0.1], [0.9, 0.2, 0.4]], 2, 1, other.transfer_characteristics, other.color_primaries).unwrap();
+            let _ = Yuv::<T>::try_from((&r_other, other));
+            let again: Result<Yuv<T>, _> = Yuv::try_from((&r, cfg));
+            let same = |a: &Yuv<T>, b: &Yuv<T>| (0..3).all(|p| a.data()[p] == b.data()[p]);
+            match &again {
+                Ok(a) if same(first, a) => {}
+                _ => viol(
+                    "history-dependent|Yuv::try_from((&Rgb,cfg))",
+                    format!("encoding the same image again after encoding another image with {other:?} gives a different result"),
+                    case().set("other_cfg", cfg_json(&other)),
+                ),
+            }
+            if idx % 4 == 1 || DERIVED.contains(&cfg.matrix_coefficients) {
+                let fresh = std::thread::scope(|s| s.spawn(|| Yuv::<T>::try_from((&r, cfg))).join());
+                cnt.fresh_thread_checks.fetch_add(1, Relaxed);
+                if let Ok(Ok(fr)) = fresh {
+                    if !same(first, &fr) {
+                        viol("history-dependent|fresh-thread-encode", "a fresh thread encodes the image differently from a thread that has already converted other images".into(), case());
+                    }
+                }
+            }
         }
         if let (Ok(sub), Ok(full)) = (sub, full) {
             let ok_sizes = sub.data()[0].cfg.width == w && sub.data()[0].cfg.height == h && (1..3).all(|p| sub.data()[p].cfg.width == cw && sub.data()[p].cfg.height == ch) && sub.width() == w && sub.height() == h;
